@@ -251,6 +251,13 @@ def check_composition(rep, S, obj, seq, w, rng):
                 g = list(groups[0])         # the same letters as the first group again (other order / case)
                 rng.shuffle(g)
                 rep.cnt("repeated_user_groups")
+            if gi > 0 and rng.random() < 0.12:
+                # a group written as one string that also reads as a word (class names, keywords): still the set of its letters
+                word = rng.choice(gen.GROUP_WORDS)
+                groups.append(word)
+                arg.append(rng.choice([word, word.lower(), word.capitalize()]))
+                rep.cnt("string_groups_that_read_as_words")
+                continue
             groups.append("".join(g))
             v = [c.lower() if rng.random() < 0.3 else c for c in g]
             arg.append(v if rng.random() < 0.6 else (tuple(v) if rng.random() < 0.5 else "".join(v)))
